@@ -497,6 +497,18 @@ def _body(res, tier, obs, model, work, proved):
         fm = ex.submit(run_sharded, model, mlines, work, "model", ("current",))
         impl, ierrs = fi.result()
         mod, merrs = fm.result()
+    # observations that contain a wall-clock timeout depend on the load of the machine: such histories are run again,
+    # one at a time, and the second observation is the one that is judged
+    redo = [h for h in hs if "TIMEOUT" in impl.get(h.id, "")]
+    if redo and not ierrs:
+        C.log("C07: %d histories hit a wall-clock bound; re-running them one at a time" % len(redo))
+        for h in redo[:200]:
+            rc2, o2, e2 = C.run([obs], input=(json.dumps(h.impl_json()) + "\n").encode(), timeout=300)
+            for line in o2.splitlines():
+                hid, _, rest = line.partition("\t")
+                if hid == h.id:
+                    impl[hid] = rest
+        cov["rerun_after_timeout"] = len(redo)
     if ierrs or merrs or len(impl) != len(hs) or len(mod) != len(hs):
         res.violation({"property": PROP, "kind": "harness-run-failed", "impl_errors": ierrs[:3], "model_errors": merrs[:3],
                        "impl_lines": len(impl), "model_lines": len(mod), "expected": len(hs)}, nofail=True, tag="run")
